@@ -50,7 +50,10 @@ def process_level(res, tier):
                             # other rings: low energy with a small momentum compaction (1/gamma^2 is 9 % of alpha0), given by alpha0 and given by -f;
                             # a high-energy ring with other harmonic number, revolution frequency and voltage
                             if per == "Ts" and (sx, sy) == shifts[0] and si == 0:
-                                for ring in (("--BeamEnergy", 1e8, "--alpha0", 3e-4), ("--BeamEnergy", 1e8), ("--BeamEnergy", 2.5e9, "--HarmonicNumber", 184, "--RevolutionFrequency", 2.7e6, "--AcceleratingVoltage", 1.4e6, "--BendingRadius", 5.559, "--alpha0", 9e-3)):
+                                for ring in (("--BeamEnergy", 1e8, "--alpha0", 3e-4), ("--BeamEnergy", 1e8), ("--BeamEnergy", 2.5e9, "--HarmonicNumber", 184, "--RevolutionFrequency", 2.7e6, "--AcceleratingVoltage", 1.4e6, "--BendingRadius", 5.559, "--alpha0", 9e-3),
+                                             # higher orders of the momentum compaction at sizes without effect on a centroid at 1 sigma (the cubic term without a quadratic one, and both),
+                                             # and the RF noise machinery switched on at an amplitude without effect (the dynamic RF map instead of the static one)
+                                             ("--alpha2", 0.5), ("--alpha1", 1e-3, "--alpha2", -0.5), ("--RFAmplitudeSpread", 1e-9)):
                                     cases.append((steps, n, sx, sy, si, q0, p0, rf, per, 45000.0, 12, ring))
                             if per == "Ts" and (sx, sy) == shifts[0] and si == 0:
                                 for vrf in (3e5, 1.5e5):     # (at 100 kV an amplitude of 0.25 is no longer small: the potential is visibly asymmetric)
